@@ -301,13 +301,15 @@ class Radio:
         c = self.r[0]
         if self.txing or not self.ce or (c & 3) != 2 or self.flags & MAX_RT:
             return
-        ent = None
-        for e in self.tx_fifo:
-            if e["kind"] == "tx":
-                ent = e
-                break
-        if ent is None:
+        # M11: a PTX sends the TX FIFO in order whatever command loaded the head entry - a payload armed with W_ACK_PAYLOAD while
+        # the chip was a PRX and never used goes out as an ordinary payload (why drivers flush the TX FIFO when they leave RX mode)
+        if not self.tx_fifo:
             return
+        ent = self.tx_fifo[0]
+        if ent["kind"] == "ack":
+            self.pid = (self.pid + 1) & 3
+            ent.update({"kind": "tx", "noack": False, "pid": self.pid, "was_ack_payload": True})
+            self.sim.count("chip_stale_ack_payload_sent_as_payload")
         self.txing = True
         self.arc_cnt = 0
         self.cur_cycle = {"start": self.sim.now, "data": bytes(ent["data"]), "pid": ent["pid"], "attempts": 0, "upload_t": ent["t"],
